@@ -42,9 +42,14 @@ ResultAgrees(e, exp) ==
                                   /\ ErrAdmissible(exp.end[2], r)
 
 ContentOK(e) ==
-  LET exp == Run(e.words, e.script) IN
-  /\ Len(e.calls) = Len(exp.calls)
-  /\ \A j \in 1..Len(exp.calls) : CallAgrees(e.calls[j], exp.calls[j], e.words)
+  LET exp == Run(e.words, e.script)
+      \* TrailingPartialWord rejected (see ResultAgrees): then the parse did not reach finalize
+      rejectedTail == exp.end[1] = "complete" /\ e.tail > 0 /\ e.result[1] = "Err"
+      want == IF rejectedTail /\ Len(exp.calls) >= 1 /\ exp.calls[Len(exp.calls)].n = "finalize"
+              THEN SubSeq(exp.calls, 1, Len(exp.calls) - 1) ELSE exp.calls
+  IN
+  /\ Len(e.calls) = Len(want)
+  /\ \A j \in 1..Len(want) : CallAgrees(e.calls[j], want[j], e.words)
   /\ ResultAgrees(e, exp)
 
 \* Framing by word counts alone (no grammar): the 1-based word indexes at which instructions start, and
